@@ -3196,6 +3196,14 @@ impl Connection {
         // Nothing is in flight on the new path yet; a probe timeout armed for the path we just
         // left must not fire as if it belonged to this one
         self.set_loss_detection_timer(now);
+        // The new path starts from a fresh MTU estimate: datagrams that no longer fit would stay
+        // at the head of the queue for ever
+        if let Some(max_datagram_size) = self.datagrams().max_size() {
+            if self.datagrams.drop_oversized(max_datagram_size) && self.datagrams.send_blocked {
+                self.datagrams.send_blocked = false;
+                self.events.push_back(Event::DatagramsUnblocked);
+            }
+        }
     }
 
     /// Handle a change in the local address, i.e. an active migration
